@@ -19,6 +19,12 @@ pub const BAD_PROBS: [f64; 6] = [0.0, 1.0, -1.0, 2.0, f64::NAN, f64::INFINITY];
 pub fn stats_case<T: Sc>(rng: &mut Rng, idx: usize, thorough: bool) -> FitCase<T> {
     let o = GenOpts { max_m: 3, max_p: 3, max_n: 12, max_s: 1, allow_dup: false, smooth_only: idx % 8 != 7, fixed_n: None };
     let mut recipe = random_recipe(rng, &o);
+    // one case in nine: a WEAK basis function (1e-4·x) together with a generous user threshold: its
+    // singular value is truncated in the linear solve – the model still has M basis functions
+    let weak = idx % 9 == 4;
+    if weak {
+        recipe.fns.push(FnSpec { kind: Kind::LinSmall, params: vec![] });
+    }
     let total = recipe.m() + recipe.p();
     let deltas: [i64; 12] = [-2, -1, 0, 1, 1, 2, 2, 3, 5, 8, 20, 3];
     let delta = deltas[idx % deltas.len()];
@@ -45,10 +51,14 @@ pub fn stats_case<T: Sc>(rng: &mut Rng, idx: usize, thorough: bool) -> FitCase<T
     // zero weights are legal: the degrees of freedom stay N - M - P
     let w = random_weights(rng, wkind, n, m);
     // a user-chosen singular-value threshold concerns the linear sub-problem only
-    let eps: Option<T> = match idx % 5 {
+    let eps: Option<T> = if weak {
+        Some(T::of(1e-2))
+    } else {
+        match idx % 5 {
         1 => Some(T::of(1e-6)),
         3 => Some(T::of(*rng.pick(&[1e-9, 1e-4, -1e-6]))),
         _ => None,
+        }
     };
     let mut y = DMatrix::from_element(n, 1, T::of(0.0));
     for i in 0..n {
@@ -195,6 +205,16 @@ pub fn emit_stats_case<T: Sc>(out: &mut Out, fc: &FitCase<T>) {
                 out.line(&format!("st sigma {}", hex(st.sigma.f())));
                 out.line(&format!("st linvar {}", vec_str(&st.lin_var)));
                 out.line(&format!("st nonlinvar {}", vec_str(&st.nonlin_var)));
+                out.line(&format!("stc cov {}", mat_str(&st.clone_covariance)));
+                out.line(&format!("stc chi2 {}", hex(st.clone_chi2.f())));
+                match &st.clone_lin_var {
+                    Ok(v) => out.line(&format!("stc linvar {}", vec_str(v))),
+                    Err(m) => out.line(&format!("stc linvar panic {}", m)),
+                }
+                match &st.clone_nonlin_var {
+                    Ok(v) => out.line(&format!("stc nonlinvar {}", vec_str(v))),
+                    Err(m) => out.line(&format!("stc nonlinvar panic {}", m)),
+                }
                 for p in PROBS.iter() {
                     match (st.stats)(T::of(*p)) {
                         Ok(r) => out.line(&format!("st band {} ok {}", hex(T::of(*p).f()), vec_str(&r))),
